@@ -170,6 +170,14 @@ func (m DocComposite) deleteWithPrefix(ctx context.Context, key keys.DataStoreKe
 		return err
 	}
 
+	// The entries are collected first and moved once the iterator is closed. Writing to the
+	// store while one of its own iterators is open blocks forever on some stores (for example
+	// the in-memory store used for time-travel queries).
+	type entry struct {
+		key   keys.DataStoreKey
+		value []byte
+	}
+	entries := []entry{}
 	for {
 		hasNext, err := iter.Next()
 		if err != nil {
@@ -184,23 +192,34 @@ func (m DocComposite) deleteWithPrefix(ctx context.Context, key keys.DataStoreKe
 			return errors.Join(err, iter.Close())
 		}
 
+		var value []byte
 		if dsKey.InstanceType == keys.ValueKey {
-			value, err := iter.Value()
-			if err != nil {
-				return errors.Join(err, iter.Close())
-			}
-
-			err = m.store.Set(ctx, dsKey.WithDeletedFlag().Bytes(), value)
+			value, err = iter.Value()
 			if err != nil {
 				return errors.Join(err, iter.Close())
 			}
 		}
+		entries = append(entries, entry{key: dsKey, value: value})
+	}
 
-		err = m.store.Delete(ctx, dsKey.Bytes())
+	err = iter.Close()
+	if err != nil {
+		return err
+	}
+
+	for _, e := range entries {
+		if e.key.InstanceType == keys.ValueKey {
+			err = m.store.Set(ctx, e.key.WithDeletedFlag().Bytes(), e.value)
+			if err != nil {
+				return err
+			}
+		}
+
+		err = m.store.Delete(ctx, e.key.Bytes())
 		if err != nil {
-			return errors.Join(err, iter.Close())
+			return err
 		}
 	}
 
-	return iter.Close()
+	return nil
 }
